@@ -34,7 +34,9 @@ LEVEL = "exploration"
 BUDGET = {"quick": {"runs": 1400, "wall": 45}, "thorough": {"runs": 60000, "wall": 570}}
 RULE = ("Each run is either a raw request stream (3-6 batches of 1-12 requests: command numbers 0..255, valid/closed/"
         "garbage handles, extended names, truncated payloads) against the real SFTPServer, or a client program of 6-30 "
-        "steps interleaving pipelined writes, prefetch, readv and other requests on one session.")
+        "steps interleaving pipelined writes (1..40000 bytes), prefetch, readv and other requests on one session; in the "
+        "server family the application callbacks raise at a per-run rate of 0/5/25 %; one client run in eight uses 32 KiB "
+        "windows and a 40 MiB sparse file so that the read-ahead stalls on flow control.")
 COMPONENTS = {"real": ["SFTPServer incl. _process/_check_file, SFTPHandle, SFTPClient, SFTPFile, transports, channels",
                        "scratch directory on the real filesystem"],
               "harness": ["packet-level SFTP client (server family)", "SFTPServerInterface over the scratch directory"],
